@@ -160,7 +160,8 @@ Prelude == Natives \o [i \in 1..Len(Defs) |-> DefB(Defs[i])]
 
 Fuel == 9
 
-RunProg(t, v)   == Vals(Ev("run", t, Prelude, Pv0(v), 0, Fuel))
+RunProgF(t, v, fuel) == Vals(Ev("run", t, Prelude, Pv0(v), 0, fuel))
+RunProg(t, v)   == RunProgF(t, v, Fuel)
 PathsProg(t, v) == PathsOf(Ev("paths", t, Prelude, Pv0(v), 0, Fuel))
 \* with bound variables (for global variables / test harness bindings)
 RunProgV(t, vars, v) ==
